@@ -1,3 +1,2 @@
-import FluteModel.Drv.Util
--- stub: engine `toi` not built yet
-def main : IO Unit := Flute.Drv.runDriver () (fun _ _ => ((), "bad-op"))
+import FluteModel.Drv.Toi
+def main : IO Unit := Flute.Drv.runDriver ({} : Flute.Drv.Toi.St) Flute.Drv.Toi.step
